@@ -813,6 +813,47 @@ fn record_bytes(cx: &Ctx, thorough: bool) {
     }
 }
 
+/// Stored text and bytes a node parses at every start: the names and contents of the files in its record directory.
+/// Needs the store rig, so it runs in the vcheck-node binary (chk-node/src/c17s.rs) as a subprocess; its cases and
+/// violations are re-reported here.
+fn store_layer(run: &Run) {
+    let exe = run.root.join("harness/target/verif/vcheck-node");
+    if !exe.exists() {
+        run.machinery_error("harness/target/verif/vcheck-node is missing: bin/check C17 builds it");
+    }
+    let out = match std::process::Command::new(&exe).arg("C17-store").arg(if run.quick() { "quick" } else { "thorough" }).env("VERIF_ROOT", &run.root).output() {
+        Ok(o) => o,
+        Err(e) => run.machinery_error(&format!("cannot run the record-store layer: {e}")),
+    };
+    let text = String::from_utf8_lossy(&out.stdout).to_string();
+    let summary = text.lines().find_map(|l| l.strip_prefix("C17S-SUMMARY ")).and_then(|j| serde_json::from_str::<serde_json::Value>(j).ok());
+    let Some(summary) = summary else {
+        run.machinery_error(&format!("the record-store layer produced no summary (exit {:?}): {}", out.status.code(), String::from_utf8_lossy(&out.stderr).chars().take(400).collect::<String>()));
+    };
+    let n = summary["cases"].as_u64().unwrap_or(0);
+    if n == 0 {
+        run.machinery_error("the record-store layer explored nothing");
+    }
+    for i in 0..n {
+        run.case(format!("record-store layer case {i}").as_bytes(), true);
+    }
+    let mut brief = summary.clone();
+    brief.as_object_mut().map(|m| m.remove("violations"));
+    run.extra("record_store_layer", brief);
+    let n_child = summary["violations"].as_array().map(|a| a.len()).unwrap_or(0);
+    if !matches!(out.status.code(), Some(0) | Some(1)) || (out.status.code() == Some(1)) != (n_child > 0) {
+        run.machinery_error(&format!("the record-store layer's exit status {:?} does not agree with the {n_child} violation(s) it reported", out.status.code()));
+    }
+    for v in summary["violations"].as_array().cloned().unwrap_or_default() {
+        run.violation(
+            v["clause"].as_str().unwrap_or("no-panic"),
+            v["trigger"].as_str().unwrap_or("?"),
+            format!("record-store layer: {}", v["what"].as_str().unwrap_or("")),
+            serde_json::json!({"engine": "record-store layer (vcheck-node C17-store)", "witness": v["witness"]}),
+        );
+    }
+}
+
 pub fn main(tier: Option<&str>) {
     let run = Run::new("C17", "exploration", tier);
     let thorough = !run.quick();
@@ -821,7 +862,8 @@ pub fn main(tier: Option<&str>) {
          every truncation and single-character substitution of a valid string, non-ASCII), every port token pair, all 65536 ports, \
          all strings <=4 over a 9-character alphabet for amounts, every sequence of <=4(5) multiaddr protocol tokens, every \
          truncation and structural single-token mutation of a valid cache file / registry file, every byte string <=1(2) plus all \
-         sequences <=3(4) over 24 msgpack marker bytes and every truncation / substitution of real record encodings, 7 bodies under record keys of every length 0..=40, 64, 255, 1000; for every text \
+         sequences <=3(4) over 24 msgpack marker bytes and every truncation / substitution of real record encodings, 7 bodies under record keys of every length 0..=40, 64, 255, 1000; \
+         a node's record directory holding one planted file (35 file names: hex of every length 1..=18, 32, 63..66, 130, upper case, non-hex, non-ASCII, nested x 8 contents) opened by the real store, twice; for every text \
          parser additionally strings with one 2-, 3- or 4-byte character at every byte offset 0..=120/200(600), followed by 0, 1 or 40 fillers. \
          A case is non-trivial when it reaches past the first syntactic check (even-length hex, decimal-shaped, well-formed tokens).",
     );
@@ -842,6 +884,8 @@ pub fn main(tier: Option<&str>) {
     run.sample(json!({"NodeRegistry::from_json": "seed with token 17 := 4294967296"}));
     record_bytes(&cx, thorough);
     run.sample(json!({"try_deserialize_record": [145, 1, 198, 255, 255, 255, 255]}));
+    store_layer(&run);
+    run.sample(json!({"record store directory": {"file_name": "cafe", "content": "16 zero bytes"}}));
     run.finish();
 }
 
